@@ -65,19 +65,28 @@ def nonobject(d, kind):
 
 
 def dep_pair(d, kind):
-    """the metaschema's own `dependencies` (drafts 3/4: exclusiveMinimum needs minimum)"""
-    def pre(v, b, with_min):
+    """the metaschema's own `dependencies` (drafts 3/4: exclusiveMinimum needs minimum, exclusiveMaximum needs maximum),
+    with every presence flag and both boolean values symbolic"""
+    def pre(v, b1, b2, with_emin, with_emax, with_min, with_max):
         return small(v, 2, 2, 2) and cand.value_ok(d, kind, v)
 
-    def body(v, b, with_min):
-        schema = {"exclusiveMinimum": b, "exclusiveMaximum": True}
+    def body(v, b1, b2, with_emin, with_emax, with_min, with_max):
+        schema = {}
+        if with_emin:
+            schema["exclusiveMinimum"] = b1
+        if with_emax:
+            schema["exclusiveMaximum"] = b2
         if with_min:
             schema["minimum"] = cand.value_of(d, kind, v)
+        if with_max:
+            schema["maximum"] = 3
         got = verdict(d, schema)
         want = "accepted" if refmodel.valid(d, cand.metaschema(d), schema) else "rejected"
         return got == want, got
 
-    return Spec([("v", cand.VALUE_KINDS[kind]), ("b", bool), ("with_min", bool)], pre, body, tags=["rejected"])
+    B = bool
+    return Spec([("v", cand.VALUE_KINDS[kind]), ("b1", B), ("b2", B), ("with_emin", B), ("with_emax", B), ("with_min", B), ("with_max", B)],
+                pre, body, tags=["accepted", "rejected"] if kind != "str" else ["accepted", "rejected"])
 
 
 def self_accept(d):
@@ -110,7 +119,7 @@ def conditions(tier, seed, active):
             c("nonobject/%s/d%d" % (kind, d), "nonobject", dict(d=d, kind=kind), ["accepted", "rejected"] if (d >= 6 and kind == "scalar") else ["rejected"])
         if d in (3, 4):
             for kind in ("int", "str", "float"):
-                c("metadeps/%s/d%d" % (kind, d), "dep_pair", dict(d=d, kind=kind), ["rejected"])
+                c("metadeps/%s/d%d" % (kind, d), "dep_pair", dict(d=d, kind=kind), ["accepted", "rejected"])
         for k in cand.keywords(d):
             root_kinds = cand.kinds_for(k)
             if quick:
